@@ -20,11 +20,13 @@ def make_splitter(ex, st, tokens=None):
     """a StatementSplitter object in an arbitrary state (flags/booleans, depth and level integers)"""
     from sqlparse.engine.statement_splitter import StatementSplitter
     f = {'__class__': StatementSplitter,
-         '_in_declare': SBool(z3.Bool('s_in_declare')), '_in_case': SBool(z3.Bool('s_in_case')),
+         '_in_declare': SBool(z3.Bool('s_in_declare')), '_in_case': SInt(z3.Int('s_in_case')),
+         '_in_loop_header': SBool(z3.Bool('s_in_loop_header')),
          '_is_create': SBool(z3.Bool('s_is_create')), '_begin_depth': SInt(z3.Int('s_begin_depth')),
          'consume_ws': SBool(z3.Bool('s_consume_ws')), 'level': SInt(z3.Int('s_level'))}
     f['tokens'] = tokens if tokens is not None else ex.new_list(st, [('seg', 'TOK0', z3.IntVal(0), z3.Int('s_ntok'))])
     st.assume(z3.Int('s_ntok') >= 0)
+    st.assume(z3.Int('s_in_case') >= 0)
     return ex.new_obj(st, 'StatementSplitter', f)
 
 
@@ -68,7 +70,8 @@ class csl_opaque:
     ensures = ['result == 0',
                'self._in_declare == old(self._in_declare)', 'self._in_case == old(self._in_case)',
                'self._is_create == old(self._is_create)', 'self._begin_depth == old(self._begin_depth)',
-               'self.level == old(self.level)', 'self.consume_ws == old(self.consume_ws)']
+               'self.level == old(self.level)', 'self.consume_ws == old(self.consume_ws)',
+               'self._in_loop_header == old(self._in_loop_header)']
     raises = []
     serves = ['C05', 'C17', 'C11']
 
@@ -95,3 +98,19 @@ class csl_total:
                'self.level == old(self.level)', 'self.consume_ws == old(self.consume_ws)']
     raises = []
     serves = ['C02', 'C04', 'C07']
+
+
+INV = ['self._begin_depth >= 0', 'self._in_case >= 0',
+       '(self._is_create and self._begin_depth >= 1) if self._in_case > 0 else True',
+       'self._is_create if self._in_declare else True']
+
+
+@contract('sqlparse.engine.statement_splitter.StatementSplitter._change_splitlevel', case='state invariant')
+class csl_inv:
+    """the block-tracking state satisfies INV after every token if it did before (the context families of the
+    grammar induction are subsets of INV); the reset state satisfies it trivially"""
+    params = {'self': make_splitter, 'ttype': 'tt', 'value': 'str'}
+    requires = list(INV)
+    ensures = list(INV)
+    raises = []
+    serves = ['C05', 'C17']
